@@ -84,6 +84,8 @@ type VC struct {
 	specDepth int
 	quants []*quantRec
 	refArr map[string]bool
+	curCall *ssa.CallCommon
+	iters map[*ssa.Range]iterInfo
 	exQuants []*quantRec
 	lastPos token.Pos
 	specQuant bool
@@ -141,6 +143,7 @@ func (vc *VC) reset() {
 	vc.notes = nil
 	vc.lets = map[string]Val{}
 	vc.quants = nil
+	vc.iters = map[*ssa.Range]iterInfo{}
 	vc.exQuants = nil
 	for _, l := range vc.loopList {
 		l.pre, l.hdr, l.hdrLocal, l.hdrHeap, l.variant, l.backSts = nil, nil, nil, nil, nil, nil
